@@ -581,6 +581,8 @@ class DirectedGenerator(instances.SatisfyingGenerator):
         self.tries_instance = 30
         self.work_budget = 400
         self.max_list = 7
+        self._single: Dict[str, Dict[str, List[Any]]] = {}
+        self._pools: Dict[str, Dict[str, List[Any]]] = {}
 
     # -- directed primitives ----------------------------------------------------------
     def pick_len(self, lo: Optional[int], hi: Optional[int], cap: int) -> int:
@@ -640,7 +642,77 @@ class DirectedGenerator(instances.SatisfyingGenerator):
                     return grown
         return None
 
+    # -- invariants that speak about exactly one property: repair that property alone -----
+    def _single_property_invariants(self, cls: str) -> Dict[str, List[Any]]:
+        cached = self._single.get(cls)
+        if cached is not None:
+            return cached
+        result: Dict[str, List[Any]] = {}
+        pools: Dict[str, List[Any]] = {}
+        for _, inv in self.pm.all_invariants(cls):
+            if inv.func is None:
+                continue
+            names = set()
+            bare_self = False
+            for node in ast.walk(inv.node.body):
+                if isinstance(node, ast.Attribute) and isinstance(node.value, ast.Name) and node.value.id == "self":
+                    names.add(node.attr)
+                elif isinstance(node, ast.Name) and node.id == "self":
+                    bare_self = True
+            # every ``self`` occurrence must be the ``self.<p>`` of one property
+            n_self = sum(1 for node in ast.walk(inv.node.body) if isinstance(node, ast.Name) and node.id == "self")
+            n_attr = sum(
+                1 for node in ast.walk(inv.node.body)
+                if isinstance(node, ast.Attribute) and isinstance(node.value, ast.Name) and node.value.id == "self"
+            )
+            if len(names) == 1 and n_self == n_attr and bare_self:
+                name = next(iter(names))
+                result.setdefault(name, []).append(inv.func)
+                for node in ast.walk(inv.node.body):
+                    if (
+                        isinstance(node, ast.Compare)
+                        and len(node.ops) == 1
+                        and isinstance(node.ops[0], ast.In)
+                        and _self_prop(node.left) == name
+                        and isinstance(node.comparators[0], ast.Name)
+                    ):
+                        const = self.pm.constants.get(node.comparators[0].id)
+                        if const is not None and isinstance(const.value, (set, frozenset)):
+                            pools.setdefault(name, []).extend(
+                                v for v in const.value if isinstance(v, (str, int)) and not isinstance(v, bool)
+                            )
+        self._single[cls] = result
+        self._pools[cls] = pools
+        return result
+
     def directed_value(self, cls: str, prop: pyexec.RefProp, depth: int) -> Any:
+        invs = self._single_property_invariants(cls).get(prop.name)
+        if not invs:
+            return self.candidate_value(cls, prop, depth)
+        pool = self._pools.get(cls, {}).get(prop.name)
+        inner = prop.type.strip_optional()
+        heavy = not (inner.kind == "atomic" and (inner.name in PRIMITIVES or self.pm.primitive_of(inner.name) is not None or self.pm.is_enum(inner.name)))
+        for _ in range(8 if heavy else 25):
+            if pool and self.rng.random() < 0.7:
+                value = self.rng.choice(pool)
+            else:
+                value = self.candidate_value(cls, prop, depth)
+            stub = self.pm.new_instance(cls, {prop.name: instances.to_shadow(self.pm, value)})
+            ok = True
+            for func in invs:
+                try:
+                    if func(stub) is not True:
+                        ok = False
+                        break
+                except Exception:
+                    ok = False
+                    break
+            if ok:
+                return value
+            self.stats["retries"] += 1
+        raise instances.Unsatisfied(f"no value for {cls}.{prop.name}")
+
+    def candidate_value(self, cls: str, prop: pyexec.RefProp, depth: int) -> Any:
         rng = self.rng
         pm = self.pm
         t = prop.type
